@@ -20,23 +20,29 @@ class Injected(Exception):
 # ------------------------------------------------------------------ canonical <-> real objects
 def mk_ref(k):
     r = Reference()
-    if k % 4 == 0:
+    # bibliography entries as they come: 100..111 go in pairs that differ only by consortium (the same submission by
+    # two consortia), 112..119 in triples of different papers filed under one PubMed id (a corrected entry)
+    base = k - k % 2 if 100 <= k < 112 else k
+    if base % 4 == 0:
         # the reference every GenBank submission carries: one title, no identifier — told apart only by authors / journal
         r.title = "Direct Submission"
-        r.journal = "Submitted ({:02d}-JAN-2020) lab {}".format(k % 28 + 1, k)
+        r.journal = "Submitted ({:02d}-JAN-2020) lab {}".format(base % 28 + 1, base)
     else:
-        r.title = "ref{}".format(k)
-    r.authors = "A{}".format(k)
+        r.title = "ref{}".format(base)
+    r.authors = "A{}".format(base)
+    r.consrtm = "C{}".format(k)
+    if 112 <= k < 120:
+        r.pubmed_id = "PM{}".format(k // 3)
     return r
 
 
 def ref_id(r):
     if isinstance(r, Reference):
-        m = re.fullmatch(r"A(\d+)", r.authors or "")
+        m = re.fullmatch(r"C(\d+)", r.consrtm or "")
         if m:
             k = int(m.group(1))
             want = mk_ref(k)
-            if (r.title, r.journal) == (want.title, want.journal):
+            if (r.title, r.journal, r.authors, r.pubmed_id) == (want.title, want.journal, want.authors, want.pubmed_id):
                 return k
     return None
 
@@ -113,11 +119,29 @@ def mk_record(c, circular=True, track=None, topo=None):
         ann["topology"] = topo            # any letter case of "circular" is a declaration CircularRecord accepts
     if c.refs:
         ann["references"] = [mk_ref(k) for k in c.refs]
+    # what files say besides: the molecule type in the words of GenBank or EMBL, a COMMENT block (a string when parsed
+    # from GenBank, a list when written by this library), database cross-references
+    n_ = len(c.seq)
+    mt = (None, "DNA", "ds-DNA", "genomic DNA", "other DNA")[n_ % 5]
+    if mt is not None:
+        ann["molecule_type"] = mt
+    if n_ % 4 == 1:
+        ann["comment"] = "a plasmid of the collection\nsecond line"
+    elif n_ % 4 == 3:
+        ann["comment"] = ["a plasmid of the collection", "second line"]
+    if n_ % 7 == 2:
+        import datetime
+        ann["date"] = datetime.datetime(2020, 1, 1 + n_ % 28)      # what the SnapGene parser leaves
+    elif n_ % 7 == 4:
+        ann["date"] = "{:02d}-JAN-2020".format(1 + n_ % 28)           # what the GenBank parser leaves
     la = {"track": list(track)} if track is not None else None
     cls = CircularRecord if circular else SeqRecord
     rid = "r{}".format(c.rid)
-    return cls(Seq(c.seq), id=rid, name="L" + rid, description="d" + rid,
-               features=[mk_feature(f) for f in c.feats], annotations=ann, letter_annotations=la)
+    rec = cls(Seq(c.seq), id=rid, name="L" + rid, description="d" + rid,
+              features=[mk_feature(f) for f in c.feats], annotations=ann, letter_annotations=la)
+    if n_ % 3 == 2:
+        rec.dbxrefs = ["collection:{}".format(rid)]
+    return rec
 
 
 def canon_record(rec, rid=None):
